@@ -6,7 +6,8 @@ TLC  : enumerates every tree to depth 3 (depth 4 by simulation in the thorough t
        algebra (brackets balance, StripFrozen leaves no frozen, is idempotent and removes exactly the wrappers).
 Bind : for every enumerated tree, on the real cassandra.cqltypes:
        lookup_casstype(CassName(t)) prints CqlName(t), is the class tree t implies and serializes a witness value
-       as the protocol says; python_to_cqltype(cqltype_to_python(s)) = s up to whitespace for s = CqlName(t);
+       as the protocol says; cqltype_to_python(s) has the structure PyForm(t) and python_to_cqltype of it is s up to
+       whitespace, for s = CqlName(t) (incl. strings with two and three quoted identifiers);
        strip_frozen(s) = CqlName(StripFrozen(t)).
 """
 import os
@@ -35,13 +36,15 @@ META = {
                   "without a FrozenType wrapper; VectorType(type , n) of 5.0); the harness's independent encoder of the "
                   "protocol value formats used for the witness value. A reversed type's CQL name is its base type's and is "
                   "read through the driver's own cassandra.metadata._cql_from_cass_type (which unwraps ReversedType). "
-                  "Leaves are int and text only, one keyspace, three UDT names, vector dimension 2; Cassandra >= 3.6 "
+                  "Leaves are int and text only, one keyspace, six UDT names (four of them need quoting: mixed case, space, "
+                  "dash, embedded double quote; an apostrophe in a name is outside the alphabet), vector dimension 2; "
+                  "Cassandra >= 3.6 "
                   "descriptors that wrap UserType in FrozenType are outside the dialect.",
     "design_ref": "5.6 C28",
 }
 
 INVARIANTS = ["Balanced", "NoFrozenLeft", "StripIdem", "StripExact", "DepthBound", "ReversedOutermostOnly"]
-WITNESSES = ["Witness_FrozenInside", "Witness_ReversedVector", "Witness_NotCassOk", "Witness_StripChanges"]
+WITNESSES = ["Witness_FrozenInside", "Witness_ReversedVector", "Witness_NotCassOk", "Witness_StripChanges", "Witness_ThreeQuoted"]
 
 
 class _Phases:
@@ -71,7 +74,7 @@ def evaluate(st):
             fails += [("cass" if full else "cass-short", sig, msg) for sig, msg in tn.eval_cass(t, st["cass"], st["cql"], full)]
     if t["k"] != "reversed":
         n += 1
-        fails += [("cql", sig, msg) for sig, msg in tn.eval_cql(st["cql"], st["stripped"])]
+        fails += [("cql", sig, msg) for sig, msg in tn.eval_cql(st["cql"], st["stripped"], st.get("py"))]
     return n, fails
 
 
@@ -166,11 +169,13 @@ def run(ctx):
         "map_key_value_swapped": (state_of({"k": "map", "a": [INT, TEXT], "nm": "", "d": 0}), swap_map),
         "frozen_not_stripped": (state_of({"k": "frozen", "a": [{"k": "list", "a": [INT], "nm": "", "d": 0}], "nm": "", "d": 0}),
                                 lambda s: dict(s, stripped=s["cql"])),
+        "parse_structure_changed": (state_of({"k": "map", "a": [INT, TEXT], "nm": "", "d": 0}),
+                                    lambda s: dict(s, py=("map", ("int", ("text",)))),),
         "list_for_set": (state_of({"k": "list", "a": [INT], "nm": "", "d": 0}),
                          lambda s: dict(s, t=FrozenDict(k="set", a=s["t"]["a"], nm="", d=0))),
     }
     noticed = {}
-    for name, (st, corrupt) in probes.items():
+    for name, (st, corrupt, *_) in probes.items():
         if st is None:
             raise tlc.MachineryError("binding self-test: probe tree for %s was not enumerated" % name)
         if evaluate(st)[1]:
@@ -185,7 +190,7 @@ def run(ctx):
     ctx.note("trees", len(seen))
     ctx.assumptions += ["descriptor dialect of Cassandra 2.1-3.5 (tuples / UDTs implicitly frozen, no FrozenType wrapper "
                         "around them); reversed only outermost and named as its base type",
-                        "leaves int and text; keyspace ks; UDT names u, kj, Kj; vector dimension 2"]
+                        "leaves int and text; keyspace ks; UDT names u, kj, Kj, \"Big Type\", other-udt, a\"b; vector dimension 2"]
 
 
 def report(ctx, failures):
@@ -196,8 +201,8 @@ def report(ctx, failures):
         cases = sorted(by_sig[sig], key=lambda c: (len(c[2]["cass"]) + len(c[2]["cql"]), c[0] == "cass-short", c[1]))
         d, msg, st = cases[0]
         ctx.violation("%s  [%d cases with this signature]" % (msg, len(cases)),
-                      replay={"state": {k: to_py(st[k]) for k in ("t", "cass", "cassok", "cql", "stripped")},
-                              "more": [{k: to_py(c[2][k]) for k in ("t", "cass", "cassok", "cql", "stripped")} for c in cases[1:10]]},
+                      replay={"state": {k: to_py(st[k]) for k in ("t", "cass", "cassok", "cql", "stripped", "py")},
+                              "more": [{k: to_py(c[2][k]) for k in ("t", "cass", "cassok", "cql", "stripped", "py")} for c in cases[1:10]]},
                       signature=sig)
 
 
@@ -206,6 +211,8 @@ def replay(ctx, r):
     sigs = []
     for st in cases:
         st = dict(st, cass=tuple(st["cass"]), cql=tuple(st["cql"]), stripped=tuple(st["stripped"]))
+        if "py" not in st:
+            st["py"] = None
         n, fails = evaluate(st)
         print("%s | %s" % (tn.cass_string(st["cass"]) if st["cassok"] else "-", tn.cql_string(st["cql"])))
         for d, sig, msg in fails:
